@@ -5,6 +5,7 @@ import (
 	"go/ast"
 	"go/token"
 	"go/types"
+	"golang.org/x/tools/go/cfg"
 	"sort"
 	"strings"
 )
@@ -21,7 +22,7 @@ func escapeCases(L *Loaded, fi *FuncInfo, sw *ast.SwitchStmt, tagVar types.Objec
 		if cc.List == nil {
 			ast.Inspect(cc, func(n ast.Node) bool {
 				if call, ok := n.(*ast.CallExpr); ok {
-					if fn := Callee(info, call); fn != nil && fn.Name() == "err" {
+					if fn := Callee(info, call); fn != nil && nameIs(fn, "err") {
 						hasDefaultErr = true
 					}
 				}
@@ -160,107 +161,166 @@ func checkC19(c *Check) {
 
 	// ---------------- R19.2 ----------------
 	r2 := c.Rule("R19.2", "number literals are read by strconv.ParseInt(_,10,64) / ParseFloat(_,64) and a failed conversion is reported", 2)
-	checkParse := func(fnName, want string, holder *FuncInfo) {
-		if holder == nil {
-			r2.Und("parser|"+want, token.NoPos, "holder function not found")
-			return
-		}
+	// decided on the control-flow graph of whichever parser function holds the conversion: the literal node that stores the
+	// converted value is built only where the conversion's error is known to be nil, and a diagnostic is emitted where it
+	// is known to be non-nil (if/else, guard clause or swapped branches alike)
+	checkParse := func(fnName, want string) {
 		found := false
-		ast.Inspect(holder.Decl.Body, func(n ast.Node) bool {
-			is, ok := n.(*ast.IfStmt)
-			if !ok || is.Init == nil {
-				return true
-			}
-			as, ok := is.Init.(*ast.AssignStmt)
-			if !ok || len(as.Rhs) != 1 {
-				return true
-			}
-			call, ok := as.Rhs[0].(*ast.CallExpr)
-			if !ok {
-				return true
-			}
-			fn := Callee(info, call)
-			if fn == nil || fn.Pkg() == nil || fn.Pkg().Path() != "strconv" {
-				return true
-			}
-			litKind := ""
-			// which literal node does the success arm build?
-			ast.Inspect(is, func(m ast.Node) bool {
-				if cl, ok := m.(*ast.CompositeLit); ok {
-					t := L.Src(cl.Type)
-					if t == "ast.IntLit" || t == "ast.FloatLit" {
-						litKind = t
-					}
+		L.ForEachFunc([]string{"src/parser"}, func(holder *FuncInfo) {
+			ast.Inspect(holder.Decl.Body, func(n ast.Node) bool {
+				as, ok := n.(*ast.AssignStmt)
+				if !ok || len(as.Rhs) != 1 || len(as.Lhs) != 2 {
+					return true
 				}
-				return true
-			})
-			if litKind != want {
-				return true
-			}
-			found = true
-			q := L.QName(holder.Obj)
-			okFn := fn.Name() == fnName
-			okArgs := true
-			if fnName == "ParseInt" {
-				b, ok1 := constInt(info, call.Args[1])
-				s, ok2 := constInt(info, call.Args[2])
-				okArgs = len(call.Args) == 3 && ok1 && ok2 && b == 10 && s == 64
-			} else {
-				s, ok2 := constInt(info, call.Args[len(call.Args)-1])
-				okArgs = ok2 && s == 64
-				// decimal comma replaced by a point, once
-				rep := false
-				ast.Inspect(call.Args[0], func(m ast.Node) bool {
-					if c2, ok := m.(*ast.CallExpr); ok {
-						if f2 := Callee(info, c2); f2 != nil && f2.Pkg() != nil && f2.Pkg().Path() == "strings" && strings.HasPrefix(f2.Name(), "Replace") && len(c2.Args) >= 3 {
-							a, _ := constString(info, c2.Args[1])
-							b, _ := constString(info, c2.Args[2])
-							rep = a == "," && b == "."
+				call, ok := ast.Unparen(as.Rhs[0]).(*ast.CallExpr)
+				if !ok {
+					return true
+				}
+				fn := Callee(info, call)
+				if fn == nil || fn.Pkg() == nil || fn.Pkg().Path() != "strconv" {
+					return true
+				}
+				objOf := func(e ast.Expr) types.Object {
+					id, ok := e.(*ast.Ident)
+					if !ok {
+						return nil
+					}
+					if o := info.Defs[id]; o != nil {
+						return o
+					}
+					return info.Uses[id]
+				}
+				valObj, errObj := objOf(as.Lhs[0]), objOf(as.Lhs[1])
+				if valObj == nil || errObj == nil {
+					return true
+				}
+				// literal nodes of the wanted kind that store the converted value
+				var lits []*ast.CompositeLit
+				direct := false
+				ast.Inspect(holder.Decl.Body, func(m ast.Node) bool {
+					cl, ok := m.(*ast.CompositeLit)
+					if !ok {
+						return true
+					}
+					if t := info.TypeOf(cl); t == nil || !strings.HasSuffix(t.String(), "/src/"+want) {
+						return true
+					}
+					for _, el := range cl.Elts {
+						if kv, ok := el.(*ast.KeyValueExpr); ok {
+							if k, ok := kv.Key.(*ast.Ident); ok && k.Name == "Value" {
+								uses := false
+								ast.Inspect(kv.Value, func(x ast.Node) bool {
+									if id, ok := x.(*ast.Ident); ok && info.Uses[id] == valObj {
+										uses = true
+									}
+									return true
+								})
+								if uses {
+									lits = append(lits, cl)
+									if id, ok := ast.Unparen(kv.Value).(*ast.Ident); ok && info.Uses[id] == valObj {
+										direct = true
+									}
+								}
+							}
 						}
 					}
 					return true
 				})
-				okArgs = okArgs && rep
-			}
-			// value stored unconverted
-			direct := false
-			var valObj types.Object
-			if id, ok := as.Lhs[0].(*ast.Ident); ok {
-				valObj = info.Defs[id]
-			}
-			ast.Inspect(is.Body, func(m ast.Node) bool {
-				if kv, ok := m.(*ast.KeyValueExpr); ok {
-					if k, ok := kv.Key.(*ast.Ident); ok && k.Name == "Value" {
-						if id, ok := kv.Value.(*ast.Ident); ok && info.Uses[id] == valObj {
-							direct = true
+				if len(lits) == 0 {
+					return true
+				}
+				found = true
+				q := L.QName(holder.Obj)
+				okFn := fn.Name() == fnName
+				okArgs := true
+				if fnName == "ParseInt" {
+					b, ok1 := constInt(info, call.Args[1])
+					s, ok2 := constInt(info, call.Args[2])
+					okArgs = len(call.Args) == 3 && ok1 && ok2 && b == 10 && s == 64
+				} else {
+					s, ok2 := constInt(info, call.Args[len(call.Args)-1])
+					okArgs = ok2 && s == 64
+					// decimal comma replaced by a point, once
+					rep := false
+					ast.Inspect(throughLocals(info, holder.Decl.Body, call.Args[0]), func(m ast.Node) bool {
+						if c2, ok := m.(*ast.CallExpr); ok {
+							if f2 := Callee(info, c2); f2 != nil && f2.Pkg() != nil && f2.Pkg().Path() == "strings" && strings.HasPrefix(f2.Name(), "Replace") && len(c2.Args) >= 3 {
+								a, _ := constString(info, c2.Args[1])
+								b, _ := constString(info, c2.Args[2])
+								rep = a == "," && b == "."
+							}
 						}
+						return true
+					})
+					okArgs = okArgs && rep
+				}
+				const errNil, errSet = 1, 2
+				g := L.CFG(holder)
+				mf := &mustFlow{G: g, Init: 0, Transfer: func(n ast.Node, s uint32) uint32 {
+					if n == ast.Node(as) {
+						return 0 // a new conversion: nothing known about its error yet
+					}
+					return s
+				}, Edge: func(b *cfg.Block, i int, s uint32) uint32 {
+					if len(b.Nodes) == 0 {
+						return s
+					}
+					cond, ok := b.Nodes[len(b.Nodes)-1].(ast.Expr)
+					if !ok {
+						return s
+					}
+					be, ok := ast.Unparen(cond).(*ast.BinaryExpr)
+					if !ok || (be.Op != token.EQL && be.Op != token.NEQ) {
+						return s
+					}
+					isErr := func(x, y ast.Expr) bool {
+						id, ok := ast.Unparen(x).(*ast.Ident)
+						return ok && info.Uses[id] == errObj && info.Types[y].IsNil()
+					}
+					if !isErr(be.X, be.Y) && !isErr(be.Y, be.X) {
+						return s
+					}
+					if (be.Op == token.EQL) == (i == 0) {
+						return s | errNil
+					}
+					return s | errSet
+				}}
+				mf.Run()
+				litsOK, reports := true, false
+				for _, b := range g.Blocks {
+					if !b.Live {
+						continue
+					}
+					for i, nd := range b.Nodes {
+						st := mf.StateAt(b, i)
+						ast.Inspect(nd, func(m ast.Node) bool {
+							switch x := m.(type) {
+							case *ast.CompositeLit:
+								for _, l := range lits {
+									if l == x && st&errNil == 0 {
+										litsOK = false
+									}
+								}
+							case *ast.CallExpr:
+								if f2 := Callee(info, x); f2 != nil && nameIs(f2, "err") && st&errSet != 0 {
+									reports = true
+								}
+							}
+							return true
+						})
 					}
 				}
+				r2.Decide(okFn && okArgs && direct && litsOK && reports, q+"|"+want, call.Pos(), "strconv."+fnName+" with the expected arguments; the literal is built only when the conversion succeeded, the failure is reported",
+					fmt.Sprintf("%s literals are read by %s (arguments ok: %v, value stored unconverted: %v, literal built only after the error was tested nil: %v, failure reported: %v): an out-of-range or malformed literal can be accepted with a silently altered value", want, L.Src(call.Fun), okArgs, direct, litsOK, reports))
 				return true
 			})
-			// success arm guarded by err == nil only; failure arm reports
-			cond := L.Src(is.Cond)
-			reports := false
-			if is.Else != nil {
-				ast.Inspect(is.Else, func(m ast.Node) bool {
-					if c2, ok := m.(*ast.CallExpr); ok {
-						if f2 := Callee(info, c2); f2 != nil && f2.Name() == "err" {
-							reports = true
-						}
-					}
-					return true
-				})
-			}
-			r2.Decide(okFn && okArgs && direct && cond == "err == nil" && reports, q+"|"+want, call.Pos(), "strconv."+fnName+" with the expected arguments; the failure arm reports SYN_MALFORMED_LITERAL",
-				fmt.Sprintf("%s literals are read by %s (arguments ok: %v, value stored unconverted: %v, success condition %q, failure reported: %v): an out-of-range or malformed literal can be accepted with a silently altered value", want, L.Src(call.Fun), okArgs, direct, cond, reports))
-			return true
 		})
 		if !found {
-			r2.Bad("parser|"+want, holder.Decl.Pos(), "no strconv conversion building an "+want+" found in "+L.QName(holder.Obj))
+			r2.Bad("parser|"+want, token.NoPos, "no strconv conversion whose result is stored in an "+want+" found in the parser")
 		}
 	}
-	checkParse("ParseInt", "ast.IntLit", L.Fn("src/parser.(*parser).parseIntLit"))
-	checkParse("ParseFloat", "ast.FloatLit", L.Fn("src/parser.(*parser).primary"))
+	checkParse("ParseInt", "ast.IntLit")
+	checkParse("ParseFloat", "ast.FloatLit")
 
 	// ---------------- R19.5 ----------------
 	r5 := c.Rule("R19.5", "the enclosing quotes of a literal are removed exactly once on each side", 2)
@@ -274,7 +334,7 @@ func checkC19(c *Check) {
 		ast.Inspect(fi.Decl.Body, func(n ast.Node) bool {
 			if call, ok := n.(*ast.CallExpr); ok {
 				if fn := Callee(info, call); fn != nil && fn.Pkg() != nil && fn.Pkg().Path() == "strings" {
-					switch fn.Name() {
+					switch canonName(fn) {
 					case "Trim", "TrimLeft", "TrimRight", "TrimFunc", "TrimLeftFunc", "TrimRightFunc", "ReplaceAll":
 						bad = fn.Name()
 					case "TrimPrefix", "TrimSuffix":
@@ -318,7 +378,7 @@ func checkC19(c *Check) {
 			}
 			v := fieldOf(cinfo, val)
 			tyOK := row.ty == "" || (len(call.Args) == 2 && L.Src(call.Args[0]) == row.ty)
-			if v != nil && v.Name() == "Value" && tyOK {
+			if v != nil && nameIs(v, "Value") && tyOK {
 				ok = true
 			}
 			return true
